@@ -86,9 +86,18 @@ func hevcAvoid(name string) bool {
 // ---------------------------------------------------------------------------------------------
 // draw helpers (all randomness through rapid)
 
-// hevcPct: true with probability pct/100.
+// hevcPct: true with probability pct/100. rapid's integer generators are deliberately biased towards small
+// values (IntRange(0,99) < 4 holds in ~30 % of the draws), so the decision is made from fair coin flips
+// (rapid.Bool draws one bit): compare a uniform binary fraction with pct/100 bit by bit (2 flips on average).
 func hevcPct(t *rapid.T, pct int, label string) bool {
-	return rapid.IntRange(0, 99).Draw(t, label) < pct
+	p := uint32(pct) * 65536 / 100 // 16-bit binary fraction
+	for i := 15; i >= 0; i-- {
+		pb := p>>uint(i)&1 == 1
+		if rapid.Bool().Draw(t, label) != pb {
+			return pb
+		}
+	}
+	return false
 }
 
 // hevcInt draws from [lo,hi], boundary heavy: the ends, their neighbours and powers of two +-1 get extra weight.
@@ -133,6 +142,18 @@ func hevcInt(t *rapid.T, lo, hi int64, label string) int64 {
 	default:
 		return rapid.Int64Range(lo, hi).Draw(t, label)
 	}
+}
+
+// hevcUni draws from 0..n-1 (n <= 256) nearly uniformly from fair coin flips (see hevcPct).
+func hevcUni(t *rapid.T, n int, label string) int {
+	v := 0
+	for k := 1; k < 4*n; k <<= 1 {
+		v <<= 1
+		if rapid.Bool().Draw(t, label) {
+			v |= 1
+		}
+	}
+	return v % n
 }
 
 func hevcU(t *rapid.T, lo, hi uint64, label string) uint64 {
